@@ -43,8 +43,8 @@ Section AreaConfig.
   Definition c_001 : T := lit OP 5764607523034235 (-59).    (* .01   in _round_shape *)
   Definition c_1em4 : T := lit OP 7378697629483821 (-66).   (* .0001 in _round_poles *)
   Definition c_1em3 : T := lit OP 1152921504606847 (-60).   (* 1e-3  in _distance_from_center_forward *)
-  Definition zero : T := ofZ OP 0.
-  Definition two : T := ofZ OP 2.
+  Definition zeroT : T := ofZ OP 0.
+  Definition twoT : T := ofZ OP 2.
   Definition ninety : T := ofZ OP 90.
 
   (* numpy.isclose(x, y, equal_nan=True):
@@ -112,7 +112,7 @@ Section AreaConfig.
   Variable crs_units : cu.
 
   Definition oget (o : option P2) : res P2 := match o with Some v => Ok v | None => Err end.
-  Definition sign (x : T) : T := if ltb OP x zero then ofZ OP (-1) else ofZ OP 1.     (* _sign *)
+  Definition signT (x : T) : T := if ltb OP x zeroT then ofZ OP (-1) else ofZ OP 1.     (* _sign *)
   Definition near_pole (lat tol : T) : bool := ltb OP (absf OP (sub OP (absf OP lat) ninety)) tol.
 
   (* _convert_coordinate_for_metered_units *)
@@ -122,20 +122,20 @@ Section AreaConfig.
   (* _round_poles *)
   Definition round_poles (center : P2) (is_angle : bool) : res P2 :=
     if is_angle then
-      Ok (if near_pole (snd center) c_1em4 then (fst center, mul OP (sign (snd center)) ninety) else center)
+      Ok (if near_pole (snd center) c_1em4 then (fst center, mul OP (signT (snd center)) ninety) else center)
     else
       do c <- oget (pinv center);
-      let c := if near_pole (snd c) c_1em4 then (fst c, mul OP (sign (snd c)) ninety) else c in
+      let c := if near_pole (snd c) c_1em4 then (fst c, mul OP (signT (snd c)) ninety) else c in
       oget (pfwd c).
 
   (* _distance_from_center_forward *)
   Definition distance_from_center_forward (var : P2) (center : option P2) : res P2 :=
-    let center := match center with Some c => c | None => (zero, zero) end in
+    let center := match center with Some c => c | None => (zeroT, zeroT) end in
     do ca <- oget (pinv center);
     if near_pole (snd ca) c_1em3 then
-      let d := sign (snd ca) in
-      do a <- oget (pfwd (zero, sub OP (snd ca) (mul OP d (absf OP (fst var)))));
-      do b <- oget (pfwd (zero, sub OP (snd ca) (mul OP d (absf OP (snd var)))));
+      let d := signT (snd ca) in
+      do a <- oget (pfwd (zeroT, sub OP (snd ca) (mul OP d (absf OP (fst var)))));
+      do b <- oget (pfwd (zeroT, sub OP (snd ca) (mul OP d (absf OP (snd var)))));
       Ok (sub OP (snd center) (snd a), sub OP (snd center) (snd b))
     else
       do a <- oget (pfwd (sub OP (fst ca) (fst var), snd ca));
@@ -168,13 +168,13 @@ Section AreaConfig.
   Definition extrapolate (area_extent : option P4) (shape : option (Z * Z)) (center : option P2)
              (radius resolution : option param) (upper_left_extent : option P2) (units : utok)
     : res (option P4 * option (Z * Z) * option P2) :=
-    do '(center, radius, upper_left_extent) <-
+    do (center, radius, upper_left_extent) <-
       (match area_extent with
        | Some (e0, e1, e2, e3) =>                                                   (* 1-A *)
-         let new_center := (div OP (add OP e2 e0) two, div OP (add OP e3 e1) two) in
+         let new_center := (div OP (add OP e2 e0) twoT, div OP (add OP e3 e1) twoT) in
          do center <- validate2 center new_center;
          do radius <- convert_units radius Nradius units (Some center);
-         let new_radius := (div OP (sub OP e2 e0) two, div OP (sub OP e3 e1) two) in
+         let new_radius := (div OP (sub OP e2 e0) twoT, div OP (sub OP e3 e1) twoT) in
          do radius <- validate2 radius new_radius;
          let new_ul := (e0, e3) in
          do ul <- validate2 upper_left_extent new_ul;
@@ -192,18 +192,18 @@ Section AreaConfig.
          end
        end);
     do resolution <- convert_units resolution Nresolution units center;
-    do '(shape, radius) <-
+    do (shape, radius) <-
       (match radius, resolution with
        | Some r, Some d =>                                                          (* 2-A *)
-         if eqb OP (snd d) zero || eqb OP (fst d) zero then Err (* ZeroDivisionError *) else
-         do new_shape <- round_shape (div OP (mul OP two (snd r)) (snd d), div OP (mul OP two (fst r)) (fst d));
+         if eqb OP (snd d) zeroT || eqb OP (fst d) zeroT then Err (* ZeroDivisionError *) else
+         do new_shape <- round_shape (div OP (mul OP twoT (snd r)) (snd d), div OP (mul OP twoT (fst r)) (fst d));
          do shape <- validate_shape shape new_shape;
          Ok (Some shape, radius)
        | _, _ =>
          match resolution, shape with
          | Some d, Some s =>                                                        (* 2-B *)
-           let new_radius := (div OP (mul OP (fst d) (ofZ OP (snd s))) two,
-                              div OP (mul OP (snd d) (ofZ OP (fst s))) two) in
+           let new_radius := (div OP (mul OP (fst d) (ofZ OP (snd s))) twoT,
+                              div OP (mul OP (snd d) (ofZ OP (fst s))) twoT) in
            do radius <- validate2 radius new_radius;
            Ok (shape, Some radius)
          | _, _ => Ok (shape, radius)
@@ -218,8 +218,8 @@ Section AreaConfig.
        | _, _ =>
          match upper_left_extent, radius with
          | Some ul, Some r =>                                                       (* 1-D *)
-           let new_ext := (fst ul, sub OP (snd ul) (mul OP two (snd r)),
-                           add OP (fst ul) (mul OP two (fst r)), snd ul) in
+           let new_ext := (fst ul, sub OP (snd ul) (mul OP twoT (snd r)),
+                           add OP (fst ul) (mul OP twoT (fst r)), snd ul) in
            do e <- validate4 area_extent new_ext; Ok (Some e)
          | _, _ => Ok area_extent
          end
